@@ -65,7 +65,7 @@ class StreamingDetector(ABC):
                     raise ValueError(
                         "Columns of new data must match with columns of prior data."
                     )
-            ary = X.values
+            ary = np.array(X.values)  # a copy: X.values can be a live view of X
         else:
             ary = copy.copy(X)
             ary = np.array(ary)
@@ -243,7 +243,7 @@ class BatchDetector(ABC):
                     raise ValueError(
                         "Columns of new data must match with columns of prior data."
                     )
-            ary = X.values
+            ary = np.array(X.values)  # a copy: X.values can be a live view of X
         else:
             ary = copy.copy(X)
             ary = np.array(ary)
